@@ -112,7 +112,7 @@ Proof.
   assert (Rpw : inF (fpow x0 ((fp - 5) / 8))) by (apply fpow_pos_spec; exact Rx0).
   set (x1 := fmul (fmul (fpow x0 ((fp - 5) / 8)) v3) u). assert (Rx1 : inF x1) by (unfold x1; inF_tac).
   name_sq xs x1. name_mul vxx xs v.
-  assert (Hfin : forall x, inF x -> eqm (x * x * v) u ->
+  assert (Hfin : forall x, inF x -> eqm (x * x * (y * y * cd + 1)) (y * y - 1) ->
             let x' := if x mod 2 =? Z.shiftr e 255 then x else fneg x in
             wf (mkpt x' y 1 (fmul x' y)) /\ Cv (mkpt x' y 1 (fmul x' y)) /\ pZ (mkpt x' y 1 (fmul x' y)) = 1).
   { intros x Rx Hx. cbv zeta.
@@ -126,12 +126,14 @@ Proof.
     pose proof (fmul_eqm x' y Rx' Ry) as Et. pose proof (fmul_in x' y Rx' Ry) as Rt.
     set (t := fmul x' y) in *.
     split; [unfold wf; cbn [pX pY pZ pT]; tauto|]. split; [|reflexivity].
-    unfold Cv. cbn [pX pY pZ pT]. clearbody t yy u yd v.
-    rewrite Et. clear - Ex' Hx Eu Ev Eyd Eyy. split; nsatz. }
+    unfold Cv. cbn [pX pY pZ pT]. clearbody t y.
+    rewrite Et. clear - Ex' Hx. split; nsatz. }
+  clearbody y.
   destruct (Z.eqb_spec (fsub vxx u) 0) as [H0|H0].
   - intro H. injection H as <-. apply (Hfin x1 Rx1).
     pose proof (fsub_eqm vxx u Rvxx Ru) as Es. rewrite H0 in Es.
-    clearbody vxx xs u. clear - Es Evxx Exs. nsatz.
+    clearbody vxx xs u v yd yy x1.
+    rewrite Evxx, Exs, Ev, Eyd, Eu, Eyy in Es. clear - Es. nsatz.
   - destruct (Z.eqb_spec (fadd vxx u) 0) as [H1|H1]; [|discriminate].
     intro H. injection H as <-.
     pose proof sqrtm1_in as Rs. pose proof sqrtm1_sq as Ess.
@@ -139,5 +141,6 @@ Proof.
     apply (Hfin _ Rm).
     pose proof (fadd_eqm vxx u Rvxx Ru) as Es. rewrite H1 in Es.
     set (xm := fmul x1 sqrtm1) in *. set (i := sqrtm1) in *.
-    clearbody vxx xs u xm i. rewrite Em. clear - Es Evxx Exs Ess. nsatz.
+    clearbody vxx xs u v yd yy x1 xm i.
+    rewrite Evxx, Exs, Ev, Eyd, Eu, Eyy in Es. rewrite Em. clear - Es Ess. nsatz.
 Qed.
